@@ -148,6 +148,10 @@ impl Env {
         Env { dir }
     }
     fn path(&self, id: usize) -> PathBuf {
+        if id == 1 {
+            // a path that is not in canonical form: the id is the path as given
+            return self.dir.join("sub").join("..").join(IDS[id]);
+        }
         self.dir.join(IDS[id])
     }
     /// apply an operation to the real parser; Some(is_err) for add_file
@@ -304,10 +308,25 @@ impl<'a> Explorer<'a> {
         }
     }
 
-    /// full history tree from `roots`, `depth` levels, level-synchronous and parallel
+    /// depth-first exploration below `node` (memory stays proportional to the depth)
+    fn dfs(&self, node: &Node, alphabet: &[Op], depth_left: usize) {
+        if depth_left == 0 || self.stats.violation_count() > 50 || self.stats.past_cap() {
+            return;
+        }
+        for op in alphabet {
+            if let Some(child) = self.step(node, *op) {
+                self.dfs(&child, alphabet, depth_left - 1);
+            }
+        }
+    }
+
+    /// full history tree from `roots`, `depth` levels: the first two levels breadth-first (to get
+    /// enough independent subtrees for all cores), the rest depth-first inside each subtree
     fn explore(&self, roots: Vec<Node>, alphabet: &[Op], depth: usize) {
         let mut frontier = roots;
-        for _level in 0..depth {
+        let bfs_levels = depth.min(2);
+        for level in 0..bfs_levels {
+            let last = level + 1 == depth;
             // nodes are moved into the workers (the parser only needs to be Send, not Sync)
             let next: Vec<Node> = frontier
                 .into_par_iter()
@@ -315,14 +334,18 @@ impl<'a> Explorer<'a> {
                     alphabet
                         .iter()
                         .filter_map(|op| self.step(&n, *op))
+                        .filter(|_| !last)
                         .collect::<Vec<Node>>()
                         .into_iter()
                 })
                 .collect();
             frontier = next;
             if self.stats.violation_count() > 50 {
-                break;
+                return;
             }
+        }
+        if depth > bfs_levels {
+            frontier.into_par_iter().for_each(|n| self.dfs(&n, alphabet, depth - bfs_levels));
         }
     }
 }
